@@ -58,7 +58,7 @@ class C02(Scenario):
                 # the consumer checkpoints / merges an empty partial / copies its tree in the middle of the stream
                 steps.append({"op": "interrupt", "to": int(actor[1]), "how": s.pick(["iadd_empty", "iadd_zero", "add_empty", "pickle", "copy", "iadd_zero_x600"]), "actor": actor, "t": t})
         # the second replica's empty tree is not always fresh from the constructor: any empty tree must do
-        origin = rng.fork("knobs").pick(["ctor", "ctor", "zero", "copy", "pickle", "iadd-empty", "add-empty", "zero-of-sum"])
+        origin = rng.fork("knobs").pick(["ctor", "ctor", "zero", "copy", "pickle", "iadd-empty", "add-empty", "zero-of-sum", "iadd-empty-x600"])
         return {"spec": sp, "records": [specmod.enc_record(r) for r in recs], "steps": steps, "regime": profile, "origin": origin}
 
     def _empty_via(self, w, h, origin):
@@ -88,7 +88,9 @@ class C02(Scenario):
                 f, g = filled(), filled()
                 return (f + g).zero() if f is not None and g is not None else h
             x = h
-            x += w.build(0).value
+            for _ in range(600 if origin == "iadd-empty-x600" else 1):
+                # (x600: an accumulator that waited for its first datum while hundreds of empty partial results were merged in)
+                x += w.build(0).value if origin != "iadd-empty-x600" else h.zero()
             return x
 
         o = call(mk)
